@@ -28,8 +28,8 @@ mod pm {
 
     pub fn pm_temp(depth: usize, variant: usize) -> Result<TraitSut<PmTree>, String> {
         // the default configuration has a 150 kB page cache (very slow at depth 20); most units use a
-        // temporary tree with a larger cache, every fourth one the default configuration
-        if variant % 4 == 3 {
+        // temporary tree with a larger cache, every fourth one (depth <= 12) the default configuration
+        if variant % 4 == 3 && depth <= 12 {
             TraitSut::new("pm", depth, Box::new(|d| PmTree::default(d).map_err(|e| e.to_string())))
         } else {
             TraitSut::new(
@@ -123,8 +123,8 @@ pub fn run(rep: &mut Rep, focus: Focus, args: &[String]) {
     let base_n: usize = match (focus, thorough) {
         (Focus::Proofs, false) => 10,
         (Focus::Proofs, true) => 200,
-        (_, false) => 24,
-        (_, true) => 800,
+        (_, false) => 60,
+        (_, true) => 1500,
     };
     let hist_len = |rng: &mut rand_chacha::ChaCha8Rng| -> usize {
         use rand::Rng;
